@@ -203,6 +203,17 @@ func c11Enumerate(tier string, emit func(*eng.Case)) {
 			}
 		}
 	}
+	// (2e) ordered pairs and triples over the script menu (editions of one article in different
+	// scripts that share <title> and markup title: the word counter differs, the titles do not)
+	ns := len(c11MenuNamed("script"))
+	for i := 0; i < ns; i++ {
+		for j := 0; j < ns; j++ {
+			emit(&eng.Case{Kind: "history", P: map[string]string{"menu": "script", "seq": fmt.Sprintf("%d,%d", i, j), "doc": fmt.Sprintf("script-menu history %d,%d", i, j)}})
+			for k := 0; k < ns; k++ {
+				emit(&eng.Case{Kind: "history", P: map[string]string{"menu": "script", "seq": fmt.Sprintf("%d,%d,%d", i, j, k), "doc": fmt.Sprintf("script-menu history %d,%d,%d", i, j, k)}})
+			}
+		}
+	}
 	// (2d) one URL object reused and changed in place by the caller between two calls
 	for i := 0; i < len(c11InplaceURLs); i++ {
 		for j := 0; j < len(c11InplaceURLs); j++ {
@@ -282,6 +293,21 @@ func c11MenuNamed(name string) []c11Call {
 			m = append(m, c11Call{docQ, u + "?page=2", 1, 0, "reader"})
 		}
 		return m
+	}
+	if name == "script" {
+		head := "<head><meta charset=\"utf-8\"><title>Daily Post</title><meta name=\"title\" content=\"Daily Post Front Page - \uc11c\uc6b8 news \ubd80\uc0b0 today - Daily\"></head>"
+		rep := func(n int, f string) string {
+			var sb strings.Builder
+			for i := 0; i < n; i++ {
+				sb.WriteString(fmt.Sprintf(f, i))
+			}
+			return sb.String()
+		}
+		en := "<html>" + head + "<body><article><h1>English edition</h1><p>" + rep(30, "This is sentence number %d of the English edition of the story, and it is long enough. ") + "</p><p>" + rep(30, "Another paragraph with sentence %d so that the article has plenty of words in it. ") + "</p></article></body></html>"
+		ko := "<html>" + head + "<body><article><h2>\uc11c\uc6b8 news \ubd80\uc0b0 today</h2><p>" + rep(30, "\uc774\uac83\uc740 \ud55c\uad6d\uc5b4 \uae30\uc0ac\uc758 %d \ubc88\uc9f8 \ubb38\uc7a5\uc774\uba70 \ucda9\ubd84\ud788 \uae38\uac8c \uc791\uc131\ub418\uc5c8\uc2b5\ub2c8\ub2e4. ") + "</p><p>" + rep(30, "\ub610 \ub2e4\ub978 \ub2e8\ub77d\uc758 %d \ubc88\uc9f8 \ubb38\uc7a5\uc73c\ub85c \uae30\uc0ac\uc5d0 \ub2e8\uc5b4\uac00 \ub9ce\uc774 \ub4e4\uc5b4 \uc788\uc2b5\ub2c8\ub2e4. ") + "</p></article></body></html>"
+		zh := "<html>" + head + "<body><article><h2>\uc11c\uc6b8 news \ubd80\uc0b0 today</h2><p>" + rep(30, "\u8fd9\u662f\u4e2d\u6587\u7248\u672c\u7684\u7b2c %d \u4e2a\u53e5\u5b50\uff0c\u5b83\u8db3\u591f\u957f\u4e86\u3002") + "</p><p>" + rep(30, "\u53e6\u4e00\u6bb5\u7684\u7b2c %d \u4e2a\u53e5\u5b50\uff0c\u6587\u7ae0\u91cc\u6709\u5f88\u591a\u5b57\u3002") + "</p></article></body></html>"
+		other := "<html><head><meta charset=\"utf-8\"><title>Something else entirely</title></head><body><article><h1>Unrelated</h1><p>" + rep(30, "An unrelated page with sentence number %d, which only has to be long enough as well. ") + "</p></article></body></html>"
+		return []c11Call{{en, "", 0, 0, "apply-nil"}, {ko, "", 0, 0, "apply-nil"}, {zh, "", 0, 0, "apply-nil"}, {other, "", 0, 0, "apply-nil"}, {ko, "", 0, 0, "reader-nil"}, {en, "", 0, 0, "reader-nil"}}
 	}
 	if name == "meta" {
 		// pages whose metadata parsers take different paths: a stateful parser (pooled, cached) would
@@ -722,7 +748,7 @@ func init() {
 		ID:        "C11",
 		DesignRef: "§5 C11",
 		Rule: "(1) map orders: for each corpus document - pagers of 6 pages whose 5 links each follow one of 3 (quick) / 4 (thorough) URL patterns, current page 2|4 / 1..6, both algorithms; S1,S2 with <= 1 / <= 2 insertions over 22 atoms (embeds with several query parameters, multi-label blocks, schema.org item, pagers) x flags {none, all} x both algorithms - a DFS explores every execution with <= 1 non-default iteration order (<= 2 on the pager corpus in thorough) at the range-over-map sites (all permutations for <= 4 keys; descending, rotations, adjacent transpositions above); the canonical result (all fields but TimingInfo) must be identical. " +
-			"(1c) warm vs fresh: every document of both corpora is distilled in the long-lived worker process (after thousands of other calls) and in a fresh process, and the two results must be equal; the same for the cross corpus (every third - thorough: second - document of an evenly spaced subset, every 2^k-th case of the quick enumeration, of the documents of C03, C04, C06, C07, C08, C14, C15, C16, C17, C18, C19 and C20). (2) histories: every sequence of <= 3 calls from a menu of 13 (document, options, entry point; two pages with the same short <title> and different h1, two pages using one inline style on block and inline elements in either order; including a page that starts with media, nil options and ApplyForURL(nil) through a stub transport), and every ordered pair from a 21-entry menu that distils two documents full of relative references (path-style and query-style pagers) under page URLs sharing hosts, directories and string prefixes, and every ordered pair (thorough: triple) from a 9-entry menu of pages whose OpenGraph/schema.org/IE metadata take different parser paths, runs in a fresh process; additionally, for every ordered pair of 5 page URLs and both algorithms, one URL object is used, overwritten in place by the caller and used again, and the second result must equal that of a freshly parsed equal URL; each call must equal the same call alone in a fresh process; package-variable writes after init are reported. (3) entry points: ApplyForReader is repeatable (three calls on the same bytes), ApplyForFile == ApplyForReader, and - for valid UTF-8 input, where the reference parse is itself well defined - ApplyForReader == Apply(dom.Parse), on all byte-token strings of <= 2 / <= 3 tokens and the corpus. " +
+			"(1c) warm vs fresh: every document of both corpora is distilled in the long-lived worker process (after thousands of other calls) and in a fresh process, and the two results must be equal; the same for the cross corpus (every third - thorough: second - document of an evenly spaced subset, every 2^k-th case of the quick enumeration, of the documents of C03, C04, C06, C07, C08, C14, C15, C16, C17, C18, C19 and C20). (2) histories: every sequence of <= 3 calls from a menu of 13 (document, options, entry point; two pages with the same short <title> and different h1, two pages using one inline style on block and inline elements in either order; including a page that starts with media, nil options and ApplyForURL(nil) through a stub transport), and every ordered pair from a 21-entry menu that distils two documents full of relative references (path-style and query-style pagers) under page URLs sharing hosts, directories and string prefixes, and every ordered pair (thorough: triple) from a 9-entry menu of pages whose OpenGraph/schema.org/IE metadata take different parser paths, runs in a fresh process, and every ordered pair and triple from a 6-entry menu of editions of one article in English, Korean and Chinese that share <title> and markup title (different word counters, same titles) through Apply and ApplyForReader; additionally, for every ordered pair of 5 page URLs and both algorithms, one URL object is used, overwritten in place by the caller and used again, and the second result must equal that of a freshly parsed equal URL; each call must equal the same call alone in a fresh process; package-variable writes after init are reported. (3) entry points: ApplyForReader is repeatable (three calls on the same bytes), ApplyForFile == ApplyForReader, and - for valid UTF-8 input, where the reference parse is itself well defined - ApplyForReader == Apply(dom.Parse), on all byte-token strings of <= 2 / <= 3 tokens and the corpus. " +
 			"Non-trivial = an execution met a ranged map with >= 2 keys and a non-default order was explored; histories of >= 2 calls; inputs that parse.",
 		Enumerate:                 c11Enumerate,
 		Prepare:                   func(tier string) { CrossCorpus(tier) },
